@@ -240,6 +240,18 @@ def run_unit(unit_path, repo, verif_root, build_root, do_twin=True, rlimit=None)
     res["discharged"] = sum(f["obligations"] for f in res["functions"] if f["success"])
     # diagnostics
     ranges = _fn_ranges(gen_text)
+    ex_fn = {}
+    for ex in unit.get("extract", []):
+        last = ex["path"][-1]
+        if ex.get("kind") == "block":
+            m = re.search(r"fn\s+(\w+)", ex.get("wrap_head", ""))
+            if m:
+                ex_fn[ex["name"]] = m.group(1)
+        elif last.startswith("fn "):
+            ex_fn[ex["name"]] = last[3:].strip()
+    for ia in unit.get("impl_all", []):
+        for fname in unit.get("_default_contract_fns", []):
+            ex_fn[ia["name"] + "__" + fname] = fname
     gen_lines = gen_text.split("\n")
     gen_name = os.path.basename(gen_path)
     for d in r["diags"]:
@@ -257,6 +269,10 @@ def run_unit(unit_path, repo, verif_root, build_root, do_twin=True, rlimit=None)
         if line and line <= len(genmap) and genmap[line - 1]:
             ex, f, sl = genmap[line - 1]
             src = "%s:%s" % (f, sl) if sl else "%s (annotation of %s)" % (f, ex)
+            # the line belongs to an extracted piece: its function name is known from the unit file (the
+            # brace-matching heuristic of _fn_ranges is fooled by `{` inside requires/ensures clauses)
+            if ex in ex_fn:
+                fn = ex_fn[ex]
         labels = []
         for s2 in d.get("spans", []):
             if not s2.get("label"):
